@@ -67,6 +67,11 @@ struct WireSnk {
 };
 
 // ------------------------------------------------------------------ allocator ledger
+// the C library's malloc underneath the library's stock heap allocator fails on demand (-Wl,--wrap=malloc)
+extern "C" void *__real_malloc(size_t);
+static bool g_fail_next_malloc = false;
+extern "C" void *__wrap_malloc(size_t n) { if (g_fail_next_malloc) { g_fail_next_malloc = false; return nullptr; } return __real_malloc(n); }
+static bool g_stock_heap = false;   // blocks come from ufw_malloc() / go back through ufw_mfree() (the stock heap allocator's functions) instead of straight from malloc
 static int g_block_fill = 0xbe, g_block_scrub = -1;   // what fresh blocks contain (pool in erased RAM: 0xff, zeroed pool: 0x00, ...) and whether the pool scrubs returned blocks
 struct Ledger {
     Ctx *c = nullptr; size_t bs = 128; bool slab = false;
@@ -78,6 +83,16 @@ struct Ledger {
     int do_alloc(void **m) {
         c->step_budget();
         int64_t s = 0;
+        if (g_stock_heap) {
+            // the heap runs dry underneath ufw_malloc(): what comes back is whatever the library's function makes of it
+            const bool dry = fail.next(s) && s != 0;
+            if (dry) { g_fail_next_malloc = true; ++failed; c->faults_fired++; COUNT("fault.allocation_failure"); COUNT("probe.malloc_failed_underneath_ufw_malloc"); }
+            void *q = nullptr; int rc = ufw_malloc(nullptr, &q, bs); g_fail_next_malloc = false;
+            c->ev(EV_ALLOC, 2, (uint64_t)(int64_t)rc, allocs);
+            if (rc < 0) { *m = nullptr; return rc; }
+            if (q) { memset(q, g_block_fill, bs); live[(uintptr_t)q] = allocs; }
+            ++allocs; *m = q; return rc;
+        }
         if (fail.next(s) && s != 0) { *m = nullptr; ++failed; c->faults_fired++; COUNT("fault.allocation_failure"); c->ev(EV_ALLOC, 0, 0, allocs); return -ENOMEM; }
         void *p;
         if (recycle && !pool.empty()) { p = pool.back(); pool.pop_back(); ASAN_UNPOISON_MEMORY_REGION(p, bs); COUNT("probe.block_recycled_with_stale_content"); }
@@ -91,6 +106,7 @@ struct Ledger {
         c->ev(EV_FREE, it != live.end(), 0, frees);
         if (it == live.end()) { ++unknown_free; return; }   // never passed to free(): a double free would otherwise abort before we can report it
         live.erase(it); ++frees;
+        if (g_stock_heap) { ufw_mfree(nullptr, m); return; }
         if (recycle) { if (g_block_scrub >= 0) memset(m, g_block_scrub, bs); ASAN_POISON_MEMORY_REGION(m, bs); pool.push_back(m); }   // use-after-free stays visible to ASan while the block waits in the pool
         else free(m);
     }
@@ -301,7 +317,7 @@ struct RegpHarness : Harness {
         else if (p == "C07") for (const char *s : {"frame_of_64k_octets_or_more", "damage_beyond_64k_words", "idle_turn_after_a_frame", "reply_could_not_be_sent", "flip1", "flip2", "burst", "truncate", "extend", "header_word_flip", "class_header_encoding", "class_header_crc", "class_payload_size", "class_payload_crc", "raw_accept", "raw_tcp", "option_plcrc_without_hdcrc", "odd_payload_ws16", "payload_fault_answered_with_error_response", "classified_from_fallback_buffer"}) v.push_back(s);
         else if (p == "C08") { for (const char *s : {"payload_of_64k_octets_or_more", "channel_attached_again_mid_session", "req_read8", "req_read16", "req_write8", "req_write16", "resp_ack_payload", "resp_ack_empty", "resp_meta", "payload_with_slip_control_octets", "varint_prefix_2_octets", "sequence_wrap", "roundtrip_accepted"}) v.push_back(s);
             for (int k = 1; k < 12; ++k) v.push_back("resp_code_" + std::to_string(k)); }
-        else for (const char *s : {"frame_of_64k_octets_or_more", "reply_could_not_be_sent", "alloc_failure_with_parsable_header", "alloc_failure_without_parsable_header", "empty_frame", "short_frame", "frame_len_room_minus_1", "frame_len_room", "frame_len_room_plus_1", "rx_overflow", "read_at_limit_minus_1", "read_at_limit", "read_at_limit_plus_1", "tx_overflow", "channel_error_mid_frame", "odd_payload_ws16", "slab_allocator", "block_size_minimum", "served_after_fault", "illegal_slip_sequence_on_the_wire"}) v.push_back(s);
+        else for (const char *s : {"frame_of_64k_octets_or_more", "reply_could_not_be_sent", "malloc_failed_underneath_ufw_malloc", "alloc_failure_with_parsable_header", "alloc_failure_without_parsable_header", "empty_frame", "short_frame", "frame_len_room_minus_1", "frame_len_room", "frame_len_room_plus_1", "rx_overflow", "read_at_limit_minus_1", "read_at_limit", "read_at_limit_plus_1", "tx_overflow", "channel_error_mid_frame", "odd_payload_ws16", "slab_allocator", "block_size_minimum", "served_after_fault", "illegal_slip_sequence_on_the_wire"}) v.push_back(s);
         return v;
     }
     Json describe(const std::string &p) const override {
@@ -384,6 +400,7 @@ struct RegpHarness : Harness {
         if (r.chance(1, 4)) { Json ij = Json::arr(); ij.push((long long)(r.chance(1, 2) ? r.below(8) : r.below(200))); ij.push((long long)r.below(1 << 20)); p["intrude"] = ij; }
         if (r.chance(1, 3)) { static const int F[] = {0x00, 0xff, 0xff, 0xa5, 0x01}; p["fill"] = F[r.below(5)]; }
         if (r.chance(1, 4)) p["scrub"] = r.chance(1, 2) ? 0xff : 0x00;
+        if (r.chance(1, 4)) p["stock_heap"] = 1;
         if (prop == "C08") { static const int DIRT[] = {0, 0, 0xff, 0xa5, 0x01, 0x80}; p["dirt"] = DIRT[r.below(6)]; }
         if (r.chance(1, 4)) p["lend"] = (long long)(r.chance(1, 3) ? r.range(1, 6) : (r.chance(1, 2) ? r.range(7, 40) : r.range(41, 400)));   // the channel sources implement the getbuffer extension
         const size_t room = (size_t)block - sizeof(RPFrame);
@@ -454,7 +471,7 @@ struct RegpHarness : Harness {
                     o["raw"] = hexs(b);
                     if (r.chance(1, 6)) o["allocfail"] = 1;
                     if (r.chance(1, 2)) o["idle"] = 1;
-                    if (r.chance(1, 5)) { Json se = Json::arr(); se.push((long long)r.below(12)); se.push((long long)r.below(4)); o["snkerr"] = se; }
+                    if (r.chance(1, 5)) { Json se = Json::arr(); se.push((long long)r.below(12)); se.push((long long)r.below(13)); o["snkerr"] = se; }
                 }
                 ops.push(o);
             }
@@ -520,8 +537,8 @@ struct RegpHarness : Harness {
                 o["verdict"] = (long long)(r.chance(2, 3) ? 0 : r.below(12)); o["salt"] = (long long)r.below(100000);
                 ops.push(o);
             }
-            if (r.chance(1, 6)) { Json e = Json::arr(); e.push((long long)r.range(0, 60)); e.push(HARD_ERRORS[r.below(6)]); p["src_err"] = e; }
-            if (r.chance(1, 5)) { Json e = Json::arr(); e.push((long long)(r.chance(1, 2) ? r.below(4) : r.below(80))); e.push((long long)r.below(4)); p["snk_err"] = e; }
+            if (r.chance(1, 6)) { Json e = Json::arr(); e.push((long long)r.range(0, 60)); e.push(HARD_ERRORS[r.below(N_HARD_ERRORS)]); p["src_err"] = e; }
+            if (r.chance(1, 5)) { Json e = Json::arr(); e.push((long long)(r.chance(1, 2) ? r.below(4) : r.below(80))); e.push((long long)r.below(13)); p["snk_err"] = e; }
             if (!serial && r.chance(1, 8)) p["truncate_last"] = (long long)r.range(1, 8);
         }
         p["ops"] = ops;
@@ -532,6 +549,7 @@ struct RegpHarness : Harness {
     struct Cfg { bool serial; int mt; size_t block; bool slab, so, ko; uint16_t seq0; bool recycle; unsigned confhist; };
     static Cfg cfg_of(const Json &plan) {
         g_macro_init = plan.geti("macro_init") != 0; g_bind_with_macros = false;
+        g_stock_heap = plan.geti("stock_heap") != 0 && plan.geti("recycle") == 0; g_fail_next_malloc = false;
         g_snk_calls = 0; g_snk_intruder = nullptr; g_snk_intrude_at = -1;
         if (plan.has("intrude")) { const Json &ij = plan.get("intrude"); g_snk_intrude_at = ij.ati(0, 0); if (g_snk_intrude_at < 0 || g_snk_intrude_at > 100000) g_snk_intrude_at = 0; g_snk_intrude_arg = ij.ati(1, 0) & 0xfffff; g_snk_intruder = second_instance_emits; }
         g_block_fill = plan.has("fill") ? (int)(plan.geti("fill") & 0xff) : 0xbe; g_block_scrub = plan.has("scrub") ? (int)(plan.geti("scrub") & 0xff) : -1;
@@ -782,7 +800,7 @@ struct RegpHarness : Harness {
                 { Json none = Json::arr(); srv.led.fail.load(none); }   // an allocation failure scripted for an earlier frame that never allocated does not carry over
                 if (alloc_fails) { Json one = Json::arr(); one.push(1); srv.led.fail.load(one); }
                 load_frag(srv.src, plan);
-                if (o.has("snkerr") && !strcmp(site, "raw")) { srv.snk.err_at = (int64_t)srv.snk.calls + (o.get("snkerr").ati(0, 0) & 31); srv.snk.err_code = HARD_ERRORS[(size_t)(o.get("snkerr").ati(1, 0) & 3)]; }
+                if (o.has("snkerr") && !strcmp(site, "raw")) { srv.snk.err_at = (int64_t)srv.snk.calls + (o.get("snkerr").ati(0, 0) & 31); srv.snk.err_code = HARD_ERRORS[(size_t)(o.get("snkerr").ati(1, 0) & 15) % N_HARD_ERRORS]; }
                 Bytes w = frame_on(cf.serial, raw); c2s.data = w;
                 c.set_pin(use_shared ? "" : pin.str());
                 Frame f; Verdict v = classify(raw, f);
@@ -985,7 +1003,7 @@ struct RegpHarness : Harness {
         Node srv(c, &c2s, &s2c, cf.serial, cf.mt, cf.block, cf.slab, cf.so, cf.ko);
         srv.led.recycle = cf.recycle; srv.reconfigure(cf.confhist);
         load_frag(srv.src, plan);
-        if (plan.has("snk_err")) { srv.snk.err_at = plan.get("snk_err").ati(0, 0) & 1023; srv.snk.err_code = HARD_ERRORS[(size_t)(plan.get("snk_err").ati(1, 0) & 3)]; }
+        if (plan.has("snk_err")) { srv.snk.err_at = plan.get("snk_err").ati(0, 0) & 1023; srv.snk.err_code = HARD_ERRORS[(size_t)(plan.get("snk_err").ati(1, 0) & 15) % N_HARD_ERRORS]; }
         srv.led.fail.load(plan.get("allocfail"));
         if (cf.slab) COUNT("probe.slab_allocator");
         if (cf.block <= sizeof(RPFrame) + 4) COUNT("probe.block_size_minimum");
